@@ -16,7 +16,7 @@ import (
 // (two files of a package defining the same type then generate two Go declarations that do not compile).
 
 func init() {
-	register(&Rule{ID: "R14.8", Props: []string{"C14"}, Floor: 13,
+	register(&Rule{ID: "R14.8", Props: []string{"C14"}, Floor: 9,
 		Doc: "unique registries: every insertion into a name/tag/number registry of internal/lang/model is dominated by a failed membership test of the same registry and key whose positive branch returns an error",
 		Run: runR14_8})
 }
